@@ -19,10 +19,16 @@ Lemma waits_shape :
 Proof. vm_compute. repeat split. Qed.
 
 Lemma notes_eq :
-  unotes "read" = [CVU_tellg] /\ unotes "seekg" = [CVU_tellg] /\ unotes "write@bytes" = [CVU_tellp] /\
+  unotes "read" = [CVU_tellg; CVU_tellg] /\ unotes "seekg" = [CVU_tellg] /\ unotes "write@bytes" = [CVU_tellp] /\
   unotes "write@container" = [CVU_tellp] /\ unotes "abort" = [CVU_tellg; CVU_tellp] /\ unotes "setFileSize" = [CVU_tellp] /\
   unotes "nextLogContainer" = [] /\ unotes "dropOldData" = [] /\ unotes "setBufferSize" = [] /\ unotes "setDefaultLogContainerSize" = [].
 Proof. vm_compute. repeat split. Qed.
+
+(* read(n): the buffer grows to a larger request, and the writer is told, before the wait *)
+Lemma read_grows_buffer : exists pred rest,
+  umeth "read" = TSeq TLock (TSeq (TIf (XBin OGt (XArg I64) (XVar 5)) (TSeq (TSet 5 (XArg I64)) (TNotify CVU_tellg)) TSkip) (TSeq (TWait CVU_tellp pred) rest))
+  /\ nth_error (map (fun x => fst (fst x)) uf_vars) 5 = Some "m_bufferSize"%string.
+Proof. eexists. eexists. split; vm_compute; reflexivity. Qed.
 
 (* every method takes the mutex before anything else *)
 Definition starts_locked (s : mstmt) : bool :=
